@@ -234,6 +234,9 @@ fn run_matrix(sim: &Sim, idx: u64) {
                     ClientAuth::Required => tls = tls.client_ca_root(Certificate::from_pem(CA_C)),
                     ClientAuth::Optional => tls = tls.client_ca_root(Certificate::from_pem(CA_C)).client_auth_optional(true),
                 }
+                if sim.chance(1, 3) {
+                    tls = tls.ignore_client_order(sim.chance(1, 2));
+                }
                 let svc = HealthServer::new(CountingHealth(seen.clone()));
                 let builder = match Server::builder().tls_config(tls) {
                     Ok(b) => b,
@@ -251,10 +254,15 @@ fn run_matrix(sim: &Sim, idx: u64) {
             }
             // ---- the tonic client
             let mut tls = ClientTlsConfig::new().assume_http2(c.assume_http2);
-            match c.roots {
-                Roots::Right => tls = tls.ca_certificate(Certificate::from_pem(CA_A)),
-                Roots::Other => tls = tls.ca_certificate(Certificate::from_pem(CA_B)),
-                Roots::None => {}
+            // the same trust configuration through the different builder methods (drawn)
+            match (c.roots, sim.draw(3)) {
+                (Roots::Right, 0) => tls = tls.ca_certificate(Certificate::from_pem(CA_A)),
+                (Roots::Right, 1) => tls = tls.ca_certificates(vec![Certificate::from_pem(CA_A)]),
+                (Roots::Right, _) => tls = tls.ca_certificates(vec![Certificate::from_pem(CA_B), Certificate::from_pem(CA_A)]),
+                (Roots::Other, 0) => tls = tls.ca_certificate(Certificate::from_pem(CA_B)),
+                (Roots::Other, 1) => tls = tls.ca_certificates(vec![Certificate::from_pem(CA_B)]),
+                (Roots::Other, _) => tls = tls.ca_certificate(Certificate::from_pem(CA_C)).ca_certificate(Certificate::from_pem(CA_B)),
+                (Roots::None, _) => {}
             }
             match c.domain {
                 Domain::ConfiguredMatching => tls = tls.domain_name("sim.test"),
